@@ -712,7 +712,7 @@ func c12GenExpired(t *rapid.T, label string) c12TS {
 
 // c12GenHeld draws the record that a holder (database or fetcher) has for (s, id); ok=false = none.
 func c12GenHeld(t *rapid.T, w c12World, s, id, where string, weights []int) (c12Key, bool) {
-	classes := []string{"absent", "current", "stale", "expired", "wrong-key", "wrong-length-key", "no-validity", "expired+valid-until", "sibling-key"}
+	classes := []string{"absent", "current", "stale", "expired", "wrong-key", "wrong-length-key", "no-validity", "expired-with-valid-until", "sibling-key"}
 	var pick []string
 	for i, wgt := range weights {
 		for j := 0; j < wgt; j++ {
@@ -753,14 +753,14 @@ func c12GenHeld(t *rapid.T, w c12World, s, id, where string, weights []int) (c12
 		}
 		k.ValidUntil = c12Rel(rapid.SampledFrom(c12FutureOffsets).Draw(t, where+"_vu"))
 	case "no-validity":
-	case "expired+valid-until":
+	case "expired-with-valid-until":
 		k.Expired = c12GenExpired(t, where+"_exp")
 		k.ValidUntil = c12Rel(rapid.SampledFrom(c12FutureOffsets).Draw(t, where+"_vu"))
 	}
 	return k, true
 }
 
-//                       absent cur stale exp wrong wlen noval exp+vu sibling
+// absent cur stale exp wrong wlen noval exp+vu sibling
 var c12DBWeights = []int{30, 26, 12, 10, 7, 3, 4, 3, 5}
 var c12FetchWeights = []int{22, 44, 8, 8, 7, 2, 3, 2, 4}
 
@@ -942,6 +942,12 @@ func c12Gen(t *rapid.T) c12Case {
 			c.DB = append(c.DB, k)
 			held = append(held, k)
 		}
+	}
+	if rapid.SampledFrom([]int{0, 0, 0, 1, 0, 0}).Draw(t, "dbOddID") == 1 {
+		// a record filed under a key ID of an unsupported algorithm (holding the very key that
+		// c12GenMessage signs such IDs with): must never make a request succeed
+		c.DB = append(c.DB, c12Key{Server: rapid.SampledFrom(w.servers).Draw(t, "oddServer"), KeyID: rapid.SampledFrom(c12OtherIDs[:4]).Draw(t, "oddID"),
+			Key: c12Pub(13), ValidUntil: c12Rel(c12Hour), Tag: "db/unsupported-algorithm-id"})
 	}
 	nr := rapid.SampledFrom([]int{1, 1, 1, 2, 2, 3}).Draw(t, "nrounds")
 	scripts := make([][]c12Script, nr)
